@@ -1,6 +1,6 @@
 (* C08_lex.v — C08 (accepted iff documented), TEXT LEVEL: what the tokenizer makes of a text. *)
 From Coq Require Import String NArith ZArith List Bool.
-From BP Require Import TotalBase LexBase Lex LexSpec LexCase LexProofs LexClass LexMunch.
+From BP Require Import TotalBase LexBase Lex LexSpec LexCase LexProofs LexClass LexMunch LexOrigin.
 From BPGen Require Import GenLexer.
 Import ListNotations.
 
@@ -37,6 +37,16 @@ Theorem C08_lex_reserved_word_never_identifier_refuted : forall uw,
   = [(T_INT_LITERAL, VInt 1); (T_IDENTIFIER, VText W_bool)].
 Proof. exact reserved_word_identifier_witness. Qed.
 Print Assumptions C08_lex_reserved_word_never_identifier_refuted.
+
+(* whole runs, guarded form: an IDENTIFIER token spelled bool / byte / true / false / yes / no is glued to
+   a word character directly before or directly after it (every token of a run comes from one
+   consultation of the master regex in the context the input gives it: LexOrigin.lex_items_origins) *)
+Theorem C08_lex_reserved_identifier_is_glued : forall uw s its e rem a t lx b,
+  lex_run uw s = (its, e, rem) -> its = a ++ ITok t lx :: b ->
+  cps_eqb (t_type t) T_IDENTIFIER = true -> In lx [W_bool; W_byte; W_true; W_false; W_yes; W_no] ->
+  word_opt uw (lastc None (items_text a)) = true \/ word_opt uw (hd_error (items_text b ++ rem)) = true.
+Proof. exact reserved_identifier_is_glued. Qed.
+Print Assumptions C08_lex_reserved_identifier_is_glued.
 
 (* the 8 keywords never come out as IDENTIFIER (t_IDENTIFIER re-types them), in any context *)
 Theorem C08_lex_keyword_retyped : forall name a lx line ty v l,
